@@ -1270,6 +1270,21 @@ def _run_scenario(doc, dom, budget, root, base, res, seeds_fn) -> None:
                                f"{rel}: instance features/bounds in the "
                                f"PackingResult do not match the instance")
                 return
+            # every bound on the number of bins in the record must be one:
+            # the area bound is what its definition says, and no bound may
+            # exceed the bins of the (feasible) packing of that very record
+            area = sum(it[0] * it[1] * it[2] for it in d["items"])
+            geo = -(-area // (d["W"] * d["H"]))
+            used = max(row[1] for row in rows)
+            bb = r["bin_bounds"]
+            bad_bound = [k for k, v in bb.items()
+                         if not isinstance(v, int) or v < 1 or v > used]
+            if bb.get("bins.lowerBound.geometric") != geo or bad_bound:
+                core.violation(
+                    res, "parsed-bin-bound-untrue",
+                    f"{rel}: bin bounds {dict(bb)}; the item area needs "
+                    f"{geo} bins and the logged packing uses {used}")
+                return
         key = (bi, r["listing_seed"])
         by_seed.setdefault(key, {})[rel] = core.digest(
             [r.get("objectives"), r.get("packing")])
